@@ -1,0 +1,24 @@
+//go:build verif
+
+package cachedb
+
+// Contracts for the goverif VC generator (/verif). Comment-only file: it adds no code.
+
+// ---- C30 (kernel): what the persistent layer asks the database -----------------------------------------
+// A read asks for the value stored under exactly (namespace, key) whose ttl lies in the future - the
+// documented SQL text, the namespace as the table, the key as the only bound parameter - and decodes
+// exactly the string the row held into the caller's pointer; "found" is reported only after a row was
+// there, was scanned, was non-empty and decoded. A write stores exactly (key, json(value), ttl in unix
+// seconds) in the namespace's table with INSERT OR REPLACE (so the most recent write wins).
+//@ func Read [C30]
+//@   check none
+//@   ensures sqlRead == "SELECT value FROM '%s' WHERE key == ? AND ttl > unixepoch();"
+//@   at call fmt.Sprintf@"sqlRead" assert arg0 == sqlRead && len(arg1) == 1 && typeis(arg1[0], string) && unbox(arg1[0], string) == namespace
+//@   at call (*database/sql.DB).Query#1 assert arg1 == ret("fmt.Sprintf#1") && len(arg2) == 1 && typeis(arg2[0], string) && unbox(arg2[0], string) == key
+//@   at call encoding/json.Unmarshal#1 assert arg1 == ptr && bytesof(s, arg0)
+//@   ensures imp(result, called("(*database/sql.DB).Query") && called("(*database/sql.Rows).Next") && called("(*database/sql.Rows).Scan") && called("encoding/json.Unmarshal") && len(s) != 0)
+//@ func Write [C30]
+//@   check none
+//@   ensures sqlWrite == "INSERT OR REPLACE INTO '%s' (key, value, ttl) VALUES (?, ?, ?);"
+//@   at call fmt.Sprintf@"sqlWrite" assert arg0 == sqlWrite && len(arg1) == 1 && typeis(arg1[0], string) && unbox(arg1[0], string) == namespace
+//@   at call encoding/json.Marshal#1 assert arg0 == value
